@@ -31,13 +31,13 @@ for c in $id "$@"; do
   echo "$out" | grep -E 'PATCH FAILED|== ' | head -3
   echo "$out" | grep -q "== $c exit=1" && detected="$detected $c"
 done
-d=/verif/seeded/$id-$n
+d=/verif/seeded/$id-${WAVE:-}$n
 mkdir -p $d
 cp "$diff" $d/patch.diff; cp "$demo" $d/demo.py; cp $wt/_out/notes$n.txt $d/notes.txt 2>/dev/null
-/venv/bin/python - "$id" "$n" "$tests" "$with" "$without" "$detected" <<'EOF'
-import json, sys
-pid, n, tests, w, wo, det = sys.argv[1:7]
-notes = open('/verif/seeded/%s-%s/notes.txt' % (pid, n)).read() if __import__('os').path.exists('/verif/seeded/%s-%s/notes.txt' % (pid, n)) else ''
+/venv/bin/python - "$id" "$n" "$tests" "$with" "$without" "$detected" "$d" <<'EOF'
+import json, os, sys
+pid, n, tests, w, wo, det, d = sys.argv[1:8]
+notes = open(d + '/notes.txt').read() if os.path.exists(d + '/notes.txt') else ''
 meta = {
     'property': pid,
     'origin': 'independent sub-agent given only the property text and a scratch worktree',
@@ -50,6 +50,6 @@ meta = {
     },
     'detected_by': det.split(),
 }
-json.dump(meta, open('/verif/seeded/%s-%s/meta.json' % (pid, n), 'w'), indent=1)
-print('stored /verif/seeded/%s-%s detected_by=%s' % (pid, n, det.split()))
+json.dump(meta, open(d + '/meta.json', 'w'), indent=1)
+print('stored %s detected_by=%s' % (d, det.split()))
 EOF
